@@ -116,6 +116,9 @@
 (assert (not (validZlib bempty)))
 ; isTokOf s p t: t is one of the tokens a scanner splitting at p hands out for s (tokens("") = [], tokens(s) = [s] when p does
 ; not occur, tokens(s) = splitHead :: tokens(splitTail) otherwise); the trailing empty token after a final separator is not one
+; @needs isTokOf
 (assert (forall ((s Bytes) (p Bytes)) (! (=> (and (> (blen s) 0) (> (blen p) 0)) (isTokOf s p (splitHead s p))) :pattern ((splitHead s p)))))
 (assert (forall ((s Bytes) (p Bytes) (t Bytes)) (! (=> (and (contains s p) (> (blen p) 0) (isTokOf (splitTail s p) p t)) (isTokOf s p t)) :pattern ((isTokOf (splitTail s p) p t)))))
 (assert (forall ((p Bytes) (t Bytes)) (! (not (isTokOf bempty p t)) :pattern ((isTokOf bempty p t)))))
+; a prefix of a is a prefix of a·b
+(assert (forall ((a Bytes) (b Bytes) (p Bytes)) (! (=> (hasPrefix a p) (hasPrefix (bcat a b) p)) :pattern ((hasPrefix (bcat a b) p)))))
